@@ -1,7 +1,7 @@
 (* C07 — account-balance server: grants min(requested, balance), exact
    debits/refunds, echo, no effect for unknown accounts; running balance over
    any request sequence. *)
-From Coq Require Import List ZArith Bool.
+From Coq Require Import List ZArith Bool Lia.
 From Verif Require Import Charging.Servers Charging.ServersProofs.
 Import ListNotations.
 Open Scope Z_scope.
@@ -70,6 +70,47 @@ Theorem C07_sequence : forall cs d ue rg q,
   Some (fold_left (fun q c => if targets c ue rg then spec_step q c else q) cs q).
 Proof. exact abmf_sequence. Qed.
 Print Assumptions C07_sequence.
+
+(* "never below zero" over histories: along every sequence of reservations,
+   refunds, balance checks and price enquiries (any mix, any accounts; amounts in
+   0..2^63-1; no termination debit, which by the property lowers the balance by
+   exactly the stated amount whatever is left; no refund past 2^63-1, the known
+   finding below) the stored balance of an account that starts in 0..2^63-1 is
+   never negative. *)
+Theorem C07_never_negative : forall cs d ue rg q,
+  bal d ue rg = Some q -> 0 <= q < 9223372036854775808 ->
+  Forall no_final_debit cs -> refunds_fit ue rg q cs ->
+  exists q', bal (fold_left (fun d c => fst (abmf_ccr d c)) cs d) ue rg = Some q' /\
+             0 <= q' < 9223372036854775808.
+Proof. exact abmf_never_negative. Qed.
+Print Assumptions C07_never_negative.
+
+(* its hypotheses hold on a history that over-asks (300 of 120), refunds and asks again *)
+Example C07_never_negative_nonvacuous :
+  let cs := [mkCcr true 7 true 2 0 2 6 55 (Some 300) None;
+             mkCcr true 7 true 2 1 2 7 55 (Some 40) None;
+             mkCcr true 7 true 2 0 1 8 55 (Some 41) None;
+             mkCcr true 7 true 1 0 2 9 55 (Some 5) None] in
+  let d := [mkDoc 7 1 1000 [50]; mkDoc 7 2 120 [50]] in
+  Forall no_final_debit cs /\ refunds_fit 7 2 120 cs /\
+  bal (fold_left (fun d c => fst (abmf_ccr d c)) cs d) 7 2 = Some 0 /\
+  bal (fold_left (fun d c => fst (abmf_ccr d c)) cs d) 7 1 = Some 995.
+Proof.
+  cbv zeta. split; [|split; [|vm_compute; split; reflexivity]].
+  - idtac.
+    apply Forall_cons; [split; [cbn [c_action c_type]; intros _ H; discriminate H | cbn [c_requested]; intros a Ha; injection Ha as <-; unfold in63; lia]|].
+    apply Forall_cons; [split; [cbn [c_action c_type]; intros _ H; discriminate H | cbn [c_requested]; intros a Ha; injection Ha as <-; unfold in63; lia]|].
+    apply Forall_cons; [split; [cbn [c_action c_type]; intros _ H; discriminate H | cbn [c_requested]; intros a Ha; injection Ha as <-; unfold in63; lia]|].
+    apply Forall_cons; [split; [cbn [c_action c_type]; intros _ H; discriminate H | cbn [c_requested]; intros a Ha; injection Ha as <-; unfold in63; lia]|].
+    apply Forall_nil.
+  - cbn [refunds_fit].
+    assert (F : forall (P : Prop), (false = true -> P)) by (intros P H; discriminate H).
+    split; [intros _ H; vm_compute in H; discriminate H|].
+    split; [intros _ _ a Ha; cbn [c_requested] in Ha; injection Ha as <-; vm_compute; reflexivity|].
+    split; [intros _ H; vm_compute in H; discriminate H|].
+    split; [intros H; vm_compute in H; discriminate H|].
+    exact I.
+Qed.
 
 (* KNOWN FINDING C07/int64-overflow: the balance is an int64; a refund whose sum
    exceeds 2^63-1 wraps to a negative balance. *)
